@@ -41,7 +41,11 @@ def step(nmax, maxblocks):
         n = sym_int('n', 0, nmax)
         f, blk, pre = _state(r)
         d = Source('data', 'b', n)
-        rp = {'kind': 'writes', 'args': {'lengths': [_pre(ev(r)), ev(n)], 'end': None}}
+        def rp():
+            rv = ev(r)
+            first = concretize(pre.rope(), ev) if rv else None       # state r = 0 is reached by a write ending on a block boundary
+            return {'kind': 'writes', 'args': {'lengths': [_pre(rv), ev(n)], 'end': None,
+                                               'data': [first, concretize(d.rope(), ev) if ev(n) else b'']}}
         core.set_fallback(rp, 'C04/concretised')
         try:
             blk.write(d.rope() if not isinstance(n, int) or n else b'')
@@ -53,7 +57,7 @@ def step(nmax, maxblocks):
         r2 = blk.remaining_chars
         require(s_and(r2 >= 0, r2 <= 1012), 'remaining_chars leaves 0..1012', key='C04/state', replay=rp)
         require(s_eq(rlen(V) % 1014, 1012 - r2), 'remaining_chars does not match the file position', key='C04/state', replay=rp)
-        return {'sample': {'r': ev(r), 'n': ev(n), 'size': ev(rlen(V)), 'r_after': ev(r2)}, 'replay': rp}
+        return {'sample': {'r': ev(r), 'n': ev(n), 'size': ev(rlen(V)), 'r_after': ev(r2)}, 'replay': rp()}
     return h
 
 
@@ -85,14 +89,16 @@ def history(bounds, maxblocks):
         blk = m.Block1014(f)
         ns = [sym_int('n%d' % i, 0, b) for i, b in enumerate(bounds)]
         srcs = [Source('d%d' % i, 'b', n) for i, n in enumerate(ns)]
-        rp = {'kind': 'writes', 'args': {'lengths': [ev(n) for n in ns], 'end': 'finalise'}}
+        def rp():
+            return {'kind': 'writes', 'args': {'lengths': [ev(n) for n in ns], 'end': 'finalise',
+                                               'data': [concretize(s_.rope(), ev) if ev(s_.length) else b'' for s_ in srcs]}}
         core.set_fallback(rp, 'C04/concretised')
         for s in srcs:
             blk.write(s.rope())
         blk.finalise()
         D = cat('b', *[s.rope() for s in srcs])
         check_blocked(f.getvalue(), D, True, maxblocks, 'after %d writes + finalise' % len(bounds), key='C04/history', replay=rp)
-        return {'sample': {'lengths': [ev(n) for n in ns], 'size': ev(f.size())}, 'replay': rp}
+        return {'sample': {'lengths': [ev(n) for n in ns], 'size': ev(f.size())}, 'replay': rp()}
     return h
 
 
